@@ -77,6 +77,22 @@ def oracle(case, out):
                 wv = [1 if m.group(2) is not None else 0, i32(m.group(1)), i32(m.group(2)) if m.group(2) is not None else 0]
                 if [int(x) for x in ires[1:]] != wv:
                     bad.append(('numlist-value', 'numeric list %r entry %d: values %s, as written %s' % (body, idx, ires[1:], wv)))
+            # the double variant: same code, and the literals' values (Python's float() is correctly rounded)
+            if len(o) > 4 and o[4].startswith('d'):
+                dres = o[4][1:].split(',')
+                if dres[0] != '0':
+                    bad.append(('numlist-double', 'numeric list %r entry %d: SCPI_ExprNumericListEntryDouble reported %s where the token variant reported OK' % (body, idx, dres[0])))
+                else:
+                    import struct as _st
+                    def _bits(t):
+                        try:
+                            return _st.unpack('<Q', _st.pack('<d', float(t.replace(' ', ''))))[0] if ' ' not in t.strip() else None
+                        except (ValueError, OverflowError):
+                            return None
+                    wf = _bits(m.group(1))
+                    wt = _bits(m.group(2)) if m.group(2) is not None else 0
+                    if wf is not None and wt is not None and [int(x) for x in dres[1:]] != [1 if m.group(2) is not None else 0, wf, wt]:
+                        bad.append(('numlist-double', 'numeric list %r entry %d: doubles %s, as written %s' % (body, idx, dres[1:], [wf, wt])))
     elif whole:
         if idx < len(es):
             bad.append(('numlist-missed', 'well-formed numeric list %r: entry %d of %d reported %s instead of OK' % (body, idx, len(es), nres[0])))
